@@ -231,6 +231,10 @@ def work_history(bins, seed, idx, nops, nobs_cap, tmp):
                     st("multi_tag_commit")
                 if any(len(c["parents"]) > 1 for c in repo.commits if c["id"] in e["anc"]):
                     st("merge_in_history")
+                if any(len(c["parents"]) > 2 for c in repo.commits if c["id"] in e["anc"]):
+                    st("octopus_merge_in_history")
+                if sum(1 for c in repo.commits if c["id"] in e["anc"] and not c["parents"]) > 1:
+                    st("several_roots_in_history")
                 if len(e["nearest"]) > 1:
                     st("several_nearest_candidates")
                 if any(t["cid"] not in e["anc"] and gitmodel.valid_in(t["name"], fmt) for t in repo.tags):
